@@ -395,12 +395,15 @@ class Unit:
         for a in asserts:
             where, c = a[0], a[1]
             pre = a[2] if len(a) > 2 else ''
-            txt = '\n' + reg('assert', c).replace(f'        {c.text},', f'        proof {{ {pre} assert({c.text}); }}')
+            by = f' by {{ {a[3]} }}' if len(a) > 3 and a[3] else ';'
+            txt = '\n' + reg('assert', c).replace(f'        {c.text},', f'        proof {{ {pre} assert({c.text}){by} }}')
             if where[0] in ('before', 'after'):
                 mask = code_mask(body)
-                m = re.search(where[1], mask, re.M)
-                if not m:
-                    raise CutError(f'{relpath}: fn {key}: assertion anchor /{where[1]}/ no longer matches')
+                nth = where[2] if len(where) > 2 else 0
+                ms = list(re.finditer(where[1], mask, re.M))
+                if len(ms) <= nth:
+                    raise CutError(f'{relpath}: fn {key}: assertion anchor /{where[1]}/ #{nth} no longer matches')
+                m = ms[nth]
                 if where[0] == 'before':
                     inserts.append((body.rfind('\n', 0, m.start()) + 1, txt.lstrip('\n')))
                 else:
